@@ -823,7 +823,10 @@ def run(chk):
                        "strings around the useHexString ratio; names for every (lead byte, continuation class, tail count); object trees whose dictionary keys need "
                        "every emission form at indentation depths 0..51; helper functions; each exported, judged by the extracted specification and Python's strict "
                        "json, re-imported, exported again (generation 2 = 3). CLI: generated documents and corpus files x stream data none|inline|file x decode "
-                       "levels x object subsets x keys, --json-input / --update-from-json round trips. non-trivial = the emission changes the payload (escape, "
+                       "levels x object subsets x keys, --json-input / --update-from-json round trips; a stream-layer document (empty / 1-byte data, filters with "
+                       "parameters, chains with parameter arrays, indirect /Filter and /DecodeParms, undecodable filters) under every stream-data mode x decode level with "
+                       "the whole stream dictionary compared with the document's own; a document with non-zero generations under lists of several --json-object in every "
+                       "spelling (n | n,g | trailer) judged by 'exactly the requested subset' and by edits reaching each selected object. non-trivial = the emission changes the payload (escape, "
                        "prefix, normalisation) or a document-level run completed; distinct by input")
     part_spec_vs_python(cx)
     part_reals(cx)
